@@ -402,14 +402,14 @@ Definition stat_apply (f : bucket -> bucket) (role : N) (s : vstat) : vstat :=
 Record wrec := mkW { w_op : N; w_nonce : N; w_payload : N }.
 
 Inductive ventry :=
-| EValCreate (a : N)
+| EValCreate (a : N) (prev : option validator) (indexed : bool)   (* prev / indexed: what a repaired revert needs (fixes C09_validator_create_revert) *)
 | EValUpdate (a : N) (oldv newv : validator)
 | EValDelete (a : N) (oldv : validator)
 | EValAddUBD (r : wrec)
-| EValDelWithdraw (r : wrec) (pos : nat).   (* pos: only the repaired code records the position *)
+| EValDelWithdraw (r : wrec) (pos : nat).   (* pos: the position the record was removed from (unused before the fix) *)
 Definition v_dirtied (e : ventry) : option N :=
   match e with
-  | EValCreate a | EValUpdate a _ _ | EValDelete a _ => Some a
+  | EValCreate a _ _ | EValUpdate a _ _ | EValDelete a _ => Some a
   | EValAddUBD _ | EValDelWithdraw _ _ => None
   end.
 
@@ -468,7 +468,7 @@ Definition create_validator (v : vside) (a role status : N) (stake token : Z) : 
   | (v1, Some _) => (v1, false)
   | (v1, None) =>
     let x := mkV a role status stake token 0 false in
-    (incr_stat x (set_validator x (v_append (EValCreate a) v1)), true)
+    (incr_stat x (set_validator x (v_append (EValCreate a (find (vals v1) a) (mem (vindex v1) a)) v1)), true)
   end.
 (* UpdateValidator(newVal, oldVal) *)
 Definition update_validator (v : vside) (nv ov : validator) : vside :=
@@ -480,19 +480,28 @@ Definition update_val_op (v : vside) (a role status : N) (stake token : Z) (payl
   | (v1, None) => (v1, false)
   | (v1, Some ov) => (update_validator v1 (mkV a role status stake token payload (v_deleted ov)) ov, true)
   end.
-(* The switch [fx] selects the behaviour of the two validator-journal entries
-   that /verif/fixes/C09_validator_journal_reverts.diff repairs: false = the
-   code as it is in the repository now, true = the repaired code.  The harness
-   finds out which one the tree under test has and records it in every case. *)
+(* Which repairs of the validator journal the tree under test carries. *)
+Record fixes := mkFx {
+  f_journal : bool;   (* fix fe4c1ff: RemoveValidator / RemoveWithdrawRecords are undone by their entries *)
+  f_create : bool     (* fixes/C09_validator_create_revert.diff: the revert of CreateValidator puts a replaced
+                         deleted record and the index entry back *)
+}.
 
-(* RemoveValidator.  Unrepaired: the journal entry keeps the live object itself,
-   whose deleted flag is then set.  Repaired: it keeps a copy taken before. *)
-Definition remove_validator (fx : bool) (v : vside) (a : N) : vside * bool :=
+(* The switch [f_journal fx] selects the behaviour of the two validator-journal entries
+   that fix fe4c1ff (/verif/fixes/C09_validator_journal_reverts.diff) repaired:
+   true = the code as it is in the repository now, false = the code before that
+   fix.  The harness finds out which one the tree under test shows and records
+   it in every case, so a tree that falls back to the old behaviour is still
+   modelled faithfully (and its property violation is reported by the oracle). *)
+
+(* RemoveValidator.  Now: the journal entry keeps a copy taken before the live
+   object is marked deleted.  Before the fix: it kept the live object itself. *)
+Definition remove_validator (fx : fixes) (v : vside) (a : N) : vside * bool :=
   match find (vals v) a with
   | None => (v, false)
   | Some x =>
     let x' := set_v_deleted true x in
-    let v1 := v_append (EValDelete a (if fx then x else x')) v in
+    let v1 := v_append (EValDelete a (if f_journal fx then x else x')) v in
     (decr_stat x (set_vals (set (vals v1) a x') (vindex v1) v1), true)
   end.
 Definition add_withdraw (v : vside) (r : wrec) : vside :=
@@ -513,13 +522,13 @@ Fixpoint has_dup (l : list nat) : bool :=
 Fixpoint insert_desc (p : nat) (l : list nat) : list nat :=
   match l with [] => [p] | x :: r => if Nat.leb x p then p :: l else x :: insert_desc p r end.
 Definition sort_desc (l : list nat) : list nat := fold_right insert_desc [] l.
-(* Unrepaired: RemoveRecords, then one entry per removed record in the caller's
-   order (a repeated index yields a nil record, which the loop dereferences).
-   Repaired: the records are read first, highest position first, each entry
-   remembers its position; then RemoveRecords. *)
-Definition remove_withdraws (fx : bool) (v : vside) (idx : list nat) : option vside :=
-  let order := if fx then sort_desc idx else idx in
-  if negb fx && has_dup idx then None else
+(* Now: the records are read first, highest position first, each entry remembers
+   its position; then RemoveRecords.  Before the fix: RemoveRecords, then one
+   entry per removed record in the caller's order (a repeated index yields a nil
+   record, which the loop dereferences). *)
+Definition remove_withdraws (fx : fixes) (v : vside) (idx : list nat) : option vside :=
+  let order := if f_journal fx then sort_desc idx else idx in
+  if negb (f_journal fx) && has_dup idx then None else
   match nths (queue v) order with
   | None => None
   | Some removed =>
@@ -539,7 +548,7 @@ Fixpoint q_delete_last (q : list wrec) (r : wrec) : option (list wrec) :=
     end
   end.
 
-(* WithdrawQueue.Insert of the repaired code: at position n, at the end if n is out of range *)
+(* WithdrawQueue.Insert: at position n, at the end if n is out of range *)
 Fixpoint ins_at {A} (n : nat) (x : A) (l : list A) : list A :=
   match n, l with
   | O, _ => x :: l
@@ -547,14 +556,19 @@ Fixpoint ins_at {A} (n : nat) (x : A) (l : list A) : list A :=
   | S _, [] => [x]
   end.
 
-Definition v_entry_revert (fx : bool) (e : ventry) (v : vside) : option vside :=
+Definition v_entry_revert (fx : fixes) (e : ventry) (v : vside) : option vside :=
   match e with
-  | EValCreate a =>
+  | EValCreate a prev indexed =>
     match find (vals v) a with
     | None => None
-    | Some x => let v1 := decr_stat x v in Some (set_vals (del (vals v1) a) (rem (vindex v1) a) v1)
+    | Some x =>
+      let v1 := decr_stat x v in
+      if f_create fx
+      then Some (set_vals (match prev with Some p => set (vals v1) a p | None => del (vals v1) a end)
+                          (if indexed then vindex v1 else rem (vindex v1) a) v1)
+      else Some (set_vals (del (vals v1) a) (rem (vindex v1) a) v1)
     end
-  | EValDelete a ov => Some (if fx then incr_stat ov (set_validator ov v) else set_validator ov v)
+  | EValDelete a ov => Some (if f_journal fx then incr_stat ov (set_validator ov v) else set_validator ov v)
   | EValUpdate a ov nv =>
     let v1 := set_validator ov v in
     Some (if stake_equal nv ov then v1 else incr_stat ov (decr_stat nv v1))
@@ -563,10 +577,10 @@ Definition v_entry_revert (fx : bool) (e : ventry) (v : vside) : option vside :=
     | [] => Some v
     | _ => match q_delete_last (queue v) r with Some q => Some (set_queue q v) | None => None end
     end
-  | EValDelWithdraw r pos => Some (set_queue (if fx then ins_at pos r (queue v) else queue v ++ [r]) v)
+  | EValDelWithdraw r pos => Some (set_queue (if f_journal fx then ins_at pos r (queue v) else queue v ++ [r]) v)
   end.
 
-Fixpoint v_revert (fx : bool) (n : nat) (v : vside) : option vside :=
+Fixpoint v_revert (fx : fixes) (n : nat) (v : vside) : option vside :=
   match n with
   | O => Some v
   | S n' =>
@@ -646,7 +660,7 @@ Fixpoint rev_search (l : list (N * nat)) (revid : N) (i : nat) : option (nat * n
   end.
 
 (* RevertToSnapshot; None = panic *)
-Definition revert_to_snapshot (fx : bool) (s : state) (revid : N) : option state :=
+Definition revert_to_snapshot (fx : fixes) (s : state) (revid : N) : option state :=
   match rev_search (revs s) revid 0 with
   | None => None
   | Some (idx, ji) =>
@@ -692,7 +706,7 @@ Definition with_v (s : state) (v : vside) : state := mkState (sa s) v (revs s) (
 Definition b2z (b : bool) : Z := if b then 1%Z else 0%Z.
 
 (* one API call; the Z is the call's return value; None = panic *)
-Definition step (fx : bool) (o : op) (s : state) : option (state * Z) :=
+Definition step (fx : fixes) (o : op) (s : state) : option (state * Z) :=
   match o with
   | OAddBalance a v => Some (with_a s (add_balance (sa s) a v), 0%Z)
   | OSubBalance a v => Some (with_a s (sub_balance (sa s) a v), 0%Z)
@@ -727,7 +741,7 @@ Definition step (fx : bool) (o : op) (s : state) : option (state * Z) :=
   end.
 
 (* run a history; None = some call panicked *)
-Fixpoint run (fx : bool) (ops : list op) (s : state) : option state :=
+Fixpoint run (fx : fixes) (ops : list op) (s : state) : option state :=
   match ops with
   | [] => Some s
   | o :: r => match step fx o s with Some (s1, _) => run fx r s1 | None => None end
@@ -807,7 +821,7 @@ Definition cks (l : list Z) : Z :=
 
 (* the trace of a history: per call, the checksum of (return value :: state read
    back); -1 and stop on a panic *)
-Fixpoint trace (fx : bool) (ops : list op) (s : state) : list Z :=
+Fixpoint trace (fx : fixes) (ops : list op) (s : state) : list Z :=
   match ops with
   | [] => []
   | o :: r =>
@@ -816,7 +830,7 @@ Fixpoint trace (fx : bool) (ops : list op) (s : state) : list Z :=
     | Some (s1, ret) => cks (ret :: obs_full s1) :: trace fx r s1
     end
   end.
-Fixpoint trace_full (fx : bool) (ops : list op) (s : state) : list (list Z) :=
+Fixpoint trace_full (fx : fixes) (ops : list op) (s : state) : list (list Z) :=
   match ops with
   | [] => []
   | o :: r =>
@@ -827,8 +841,8 @@ Fixpoint trace_full (fx : bool) (ops : list op) (s : state) : list (list Z) :=
   end.
 
 (* ---- correspondence runner ---------------------------------------------- *)
-(* c_fixed: which of the two behaviours of [fx] the tree under test showed *)
-Record case := mkCase { c_fixed : bool; c_ops : list op; c_obs : list Z }.
+(* c_fixed: which repairs the tree under test showed *)
+Record case := mkCase { c_fixed : fixes; c_ops : list op; c_obs : list Z }.
 
 Fixpoint zl_eqb (a b : list Z) : bool :=
   match a, b with
